@@ -66,8 +66,9 @@ func (p *ProdGen) dstWithMessenger() uint32 {
 func (p *ProdGen) ValidDeposit(withCaller bool, amtMode int) sdk.Msg {
 	r := p.E.Rc.Rand
 	from, bal := p.funded()
-	if r.Intn(12) == 0 {
-		from, bal = LongAcct(), p.E.C.Balance(LongAcctBytes(), p.E.MintDenom())
+	if r.Intn(10) == 0 { // depositors whose address is 32, 40, 1 or 255 bytes long
+		from = []string{LongAcct(), VeryLongAcct(), TinyAcct(), HugeAcct()}[r.Intn(4)]
+		bal = p.E.C.Balance(addrBytes(from), p.E.MintDenom())
 	}
 	amt := big.NewInt(int64(1 + r.Intn(1000)))
 	switch amtMode {
@@ -152,7 +153,7 @@ func (p *ProdGen) Replacement(cls string) sdk.Msg {
 		newBody = newBody[:e.M.MaxBody]
 	}
 	switch cls {
-	case "own-message", "others-message", "unattested", "rotated-set", "user-132-as-deposit", "new-caller-shapes", "own-message-unchanged":
+	case "own-message", "others-message", "unattested", "rotated-set", "user-132-as-deposit", "new-caller-shapes", "own-message-unchanged", "own-message-body-is-original":
 		em := p.emitted(false)
 		if em == nil {
 			return nil
@@ -197,6 +198,23 @@ func (p *ProdGen) Replacement(cls string) sdk.Msg {
 				}
 			}
 			return &ct.MsgReplaceDepositForBurn{From: from, OriginalMessage: orig, OriginalAttestation: att, NewDestinationCaller: newCaller, NewMintRecipient: Structured32(9)}
+		case "own-message-body-is-original":
+			// a requested body that is itself message-shaped: the whole original, its header, or its routing prefix + tail
+			if len(orig) >= 116 {
+				switch r.Intn(4) {
+				case 0:
+					newBody = append([]byte(nil), orig...)
+				case 1:
+					newBody = append([]byte(nil), orig[:116]...)
+				case 2:
+					newBody = append(append(append([]byte(nil), orig[:84]...), Structured32(byte(r.Intn(200)))...), []byte("tail")...)
+				default:
+					newBody = append([]byte(nil), em.Latest...)
+				}
+				if e.M.HasMaxBody && uint64(len(newBody)) > e.M.MaxBody {
+					newBody = newBody[:e.M.MaxBody]
+				}
+			}
 		case "own-message-unchanged":
 			if len(orig) >= 116 {
 				newBody, newCaller = append([]byte(nil), orig[116:]...), append([]byte(nil), orig[84:116]...)
@@ -289,7 +307,7 @@ func (p *ProdGen) Replacement(cls string) sdk.Msg {
 
 var ReplacementClasses = []string{"attested-unissued-nonce", "own-message", "others-message", "unattested", "rotated-set", "user-132-as-deposit", "new-caller-shapes",
 	"own-deposit", "others-deposit", "deposit-via-replace-message", "deposit-unattested", "new-recipient-shapes", "foreign-domain", "forged-module-message",
-	"own-deposit-same-recipient", "own-deposit-unchanged", "own-message-unchanged", "attested-crafted-version"}
+	"own-deposit-same-recipient", "own-deposit-unchanged", "own-message-unchanged", "attested-crafted-version", "own-message-body-is-original"}
 
 // FailingProducer returns a producer message that must fail for the named reason.
 func (p *ProdGen) FailingProducer(kind string) []sdk.Msg {
@@ -454,6 +472,21 @@ func (p *ProdGen) Run(n int, adminEvery int) {
 					e.Exec(Tx{Msgs: msgs1(p.ValidSend(false)), Note: "send after export/import"})
 				}
 			}
+			if r.Intn(3) == 0 {
+				// a message sent to the local domain is received here, then replaced by its sender, and both versions are
+				// presented again: the pair (4, nonce) stays consumed
+				from := Acct(r.Intn(NAccounts))
+				rep := e.Exec(Tx{Msgs: msgs1(&ct.MsgSendMessage{From: from, DestinationDomain: 4, Recipient: Structured32(byte(1 + r.Intn(200))), MessageBody: []byte("loop-back")}), Note: "loop-back: send to the local domain"})
+				if rep.OK && len(rep.Sent) == 1 {
+					orig := rep.Sent[0]
+					e.Exec(Tx{Msgs: msgs1(&ct.MsgReceiveMessage{From: Acct(UserIx), Message: orig, Attestation: e.Attest(orig, 0)}), Note: "loop-back: receive"})
+					r2 := e.Exec(Tx{Msgs: msgs1(&ct.MsgReplaceMessage{From: from, OriginalMessage: orig, OriginalAttestation: e.Attest(orig, 1), NewMessageBody: []byte("loop-back replaced"), NewDestinationCaller: make([]byte, 32)}), Note: "loop-back: replace after the receive"})
+					if r2.OK && len(r2.Sent) == 1 {
+						e.Exec(Tx{Msgs: msgs1(&ct.MsgReceiveMessage{From: Acct(OtherIx), Message: r2.Sent[0], Attestation: e.Attest(r2.Sent[0], 0)}), Note: "loop-back: receive the replacement"})
+					}
+					e.Exec(Tx{Msgs: msgs1(&ct.MsgReceiveMessage{From: Acct(UserIx), Message: orig, Attestation: e.Attest(orig, 2)}), Note: "loop-back: receive the original again"})
+				}
+			}
 			if r.Intn(3) == 0 { // rotate a destination's token messenger (remove, register another address)
 				d := p.dstWithMessenger()
 				if _, ok := e.M.Messengers[d]; ok {
@@ -471,7 +504,7 @@ func NewProdEngine(rc *RunCtx, double bool, start *uint64, mut func(gs *ct.Genes
 	return StdEngine(rc, double, false, func(gs *ct.GenesisState, cfg *chain.Config) {
 		gs.NextAvailableNonce = nil
 		if start != nil {
-			gs.NextAvailableNonce = &ct.Nonce{Nonce: *start}
+			gs.NextAvailableNonce = &ct.Nonce{Nonce: *start, SourceDomain: []uint32{0, 4, 0xffffffff, 0, 7}[int(*start%5)]} // the counter is the nonce field
 		}
 		if mut != nil {
 			mut(gs, cfg)
